@@ -29,6 +29,10 @@ def naming_writes(prog: Program, resolver: Resolver, q: str) -> List[Write]:
         kind = w.location.split(".")[-1]
         if kind in NAMING_ATTRS:
             out.append(w)
+        elif kind == "_known" and (w.how == "delete" or any(x in w.how for x in ("pop", "clear", "remove"))):
+            # an entry taken *out* of an intern table (re-keying, eviction): unlike the insertion of a fresh object by __new__,
+            # this changes what existing keys resolve to
+            out.append(w)
         elif w.location.startswith("attr:"):
             # attribute initialisation of the fresh object inside __init__ does not count
             tgt = None
